@@ -3,6 +3,8 @@ package netmc
 import (
 	"bytes"
 
+	"github.com/go-logr/logr"
+
 	"go.minekube.com/gate/pkg/edition/java/proto/state"
 	"go.minekube.com/gate/pkg/gate/proto"
 	zz "go.minekube.com/gate/pkg/internal/zzverif"
@@ -73,3 +75,59 @@ func VerifHarness_ConnectionWritesPayloadsInOrder() {
 }
 
 var _ = proto.ClientBound
+
+func logrDiscard() logr.Logger { return logr.Discard() }
+
+// zzSlowConn is a peer that takes its time: every Write is a scheduling point; bytes are recorded.
+type zzSlowConn struct {
+	zzNetConn
+	got []byte
+}
+
+func (c *zzSlowConn) Write(b []byte) (int, error) {
+	zz.Yield()
+	c.got = append(c.got, b...)
+	zz.Yield()
+	return len(b), nil
+}
+
+// Two goroutines use one connection's real writer (bufio + Encoder) at the same time, as the backend
+// read loop relaying a payload and a proxy-originated write do: both payloads reach the peer as intact
+// frames (in either order), no write fails, and the buffered writer is never touched by two goroutines
+// at once.
+func VerifHarness_ConcurrentRelayOnOneConnection() {
+	zz.MaxPreempt(2)
+	zz.MaxLen(3)
+	zz.RaceMonitor()
+	conn := &zzSlowConn{}
+	w := NewWriter(conn, proto.ClientBound, 0, -1, logrDiscard())
+	p1 := append([]byte{0x10}, zz.Bytes(1+zz.Choose(2))...)
+	p2 := append([]byte{0x20}, zz.Bytes(1+zz.Choose(2))...)
+	var e1, e2 error
+	zz.Go(func() {
+		if _, e1 = w.Write(p1); e1 == nil {
+			e1 = w.Flush()
+		}
+	})
+	zz.Go(func() {
+		if _, e2 = w.Write(p2); e2 == nil {
+			e2 = w.Flush()
+		}
+	})
+	zz.WaitAll()
+	zz.Assert(e1 == nil && e2 == nil, "a write or flush failed although the peer accepted every byte")
+	// an independent reader of plain frames: VarInt length, payload
+	var frames [][]byte
+	b := conn.got
+	for len(b) > 0 {
+		n := int(b[0])
+		zz.Assert(n < 0x80 && 1+n <= len(b), "the byte stream to the peer is not a sequence of whole frames")
+		frames = append(frames, b[1:1+n])
+		b = b[1+n:]
+	}
+	zz.Assert(len(frames) == 2, "the peer did not receive exactly the two payloads")
+	ok12 := bytes.Equal(frames[0], p1) && bytes.Equal(frames[1], p2)
+	ok21 := bytes.Equal(frames[0], p2) && bytes.Equal(frames[1], p1)
+	zz.Assert(ok12 || ok21, "a payload reached the peer changed (frames of two writers interleaved)")
+	zz.Reach("concurrent-relay")
+}
